@@ -13,8 +13,8 @@
 
    Level of abstraction: *tokens*.  Blanks, line breaks and comments inside the padding nodes are
    not represented; a padding node is represented by the token it carries ("(" / ")" / ":" / "#" / none).
-   The only place where this matters is the implicit intersection ")(" with an empty operator padding,
-   see notes/C02.md.  Python object identity ([is]) is represented by *links*: a HalfSpace object keeps,
+   (An implicit intersection such as "9(7)" has an empty operator padding; _ensure_has_nodes puts a blank
+   into it when it links another node to one of its sides, so this stays invisible at token level; notes/C02.md.)  Python object identity ([is]) is represented by *links*: a HalfSpace object keeps,
    for each child, the syntax node it uses for that side; [LKeep k] says "that node is the child's own
    node inside k pairs of parentheses" (so it is kept by _child_node), [LStale] says "that node does not
    belong to the present child" (the child was replaced), so _child_node computes a new one.
@@ -271,7 +271,8 @@ Definition hs_set_right (h b : hs) : option hs :=
   | _ => None
   end.
 (* operator setter, between INTERSECTION and UNION: the node and its links stay; _update_node rewrites the
-   operator padding so that it shows the present operator (that is why [format_hs] prints [op]) *)
+   operator padding so that it shows the present operator (that is why [format_hs] prints [op]); a child that
+   now needs parentheses gets them in _child_node *)
 Definition hs_set_op (h : hs) (op : gop) : option hs :=
   match h with
   | HBin _ l r nd => Some (HBin op l r nd)
@@ -285,11 +286,13 @@ Definition is_union (h : hs) : bool := match h with HBin OUnion _ _ _ => true | 
 
 Inductive pctx := PBin (op : gop) | PCompl (lp : bool).
 
-(* _child_node: how many pairs of parentheses surround the child's node on that side *)
+(* _child_node: how many pairs of parentheses surround the child's node on that side.  A side that still has
+   parentheses of its own around the child's node keeps them; a bare node (the child's own node, or a node that
+   does not belong to the child) gets the parentheses that the precedence of the parent requires *)
 Definition child_node (ctx : pctx) (child : hs) (current : link) : nat :=
   match current with
-  | LKeep k => k                                            (* _strip_parentheses(current) is child.node *)
-  | LStale =>
+  | LKeep (S k) => S k                  (* current is not child.node and _strip_parentheses(current) is child.node *)
+  | _ =>
       if andb (is_unit child)
               (match ctx with PCompl _ => is_cell_unit child | PBin _ => true end)
       then 0%nat
@@ -647,6 +650,34 @@ Fixpoint show_hs (h : hs) : string :=
   | HBin OUnion l r _ => "(: " ++ show_hs l ++ " " ++ show_hs r ++ ")"
   end.
 
+(* HalfSpace.__str__ / UnitHalfSpace.__str__ *)
+Fixpoint str_hs (h : hs) : string :=
+  match h with
+  | HUnit cell pos n => (if cell then "" else if pos then "+" else "-") ++ show_Z n
+  | HCompl l _ => "#" ++ str_hs l
+  | HBin OInter l r _ => "(" ++ str_hs l ++ "*" ++ str_hs r ++ ")"
+  | HBin OUnion l r _ => "(" ++ str_hs l ++ ":" ++ str_hs r ++ ")"
+  end.
+
+(* the syntax nodes behind a HalfSpace after _update_values, followed through the links: which sides are wrapped in
+   "geom parens" nodes, which complement nodes carry their own parentheses *)
+Fixpoint wrap_show (k : nat) (s : string) : string :=
+  match k with O => s | S k' => "(p " ++ wrap_show k' s ++ ")" end.
+
+Fixpoint show_nodes (h : hs) : string :=
+  match h with
+  | HUnit cell pos n => (if unit_side cell pos then "+" else "-") ++ show_Z n
+  | HCompl l nd =>
+      let lp := match nd with Some (lp, _) => lp | None => false end in
+      let k := match nd with Some (_, lk) => link_k lk | None => 0%nat end in
+      (if lp then "(#p " else "(# ") ++ wrap_show k (show_nodes l) ++ ")"
+  | HBin op l r nd =>
+      let kl := match nd with Some (ll, _) => link_k ll | None => 0%nat end in
+      let kr := match nd with Some (_, rl) => link_k rl | None => 0%nat end in
+      (match op with OInter => "(* " | OUnion => "(: " end)
+        ++ wrap_show kl (show_nodes l) ++ " " ++ wrap_show kr (show_nodes r) ++ ")"
+  end.
+
 Definition parse_instr (s : string) : option instr :=
   match s with
   | "b" => Some IBase
@@ -670,7 +701,7 @@ Definition show_perr (e : perr) : string :=
   match e with EStack => "err:stack" | EGuard => "err:guard" | ENoBase => "err:nobase" end.
 
 (* requests:
-     "case <base tokens|-> <program|->"   ->  "<written tokens>|<object dump>"
+     "case <base tokens|-> <program|->"   ->  "<written tokens>|<object dump>|<str()>|<syntax nodes after the write>"
      "tree <tokens>"                      ->  dump of the syntax tree the actions build
      "parse <tokens>"                     ->  the Boolean expression of the reference grammar
      "unedited <tokens>"                  ->  tokens written for the parsed, unedited cell *)
@@ -686,7 +717,9 @@ Definition run_Geom (req : string) : string :=
           | Some base =>
               match run_case base prog with
               | inl e => show_perr e
-              | inr (h, toks) => show_list show_tok toks ++ "|" ++ show_hs h
+              | inr (h, toks) =>
+                  show_list show_tok toks ++ "|" ++ show_hs h ++ "|" ++ str_hs h ++ "|"
+                    ++ show_nodes (update_values h)
               end
           end
       | _, _ => "parse:err"
